@@ -80,6 +80,13 @@ type Exchange struct {
 	mu          sync.Mutex
 }
 
+// PeerClosedAt returns when the peer was seen to close the connection (zero if not yet).
+func (e *Exchange) PeerClosedAt() time.Time {
+	e.mu.Lock()
+	defer e.mu.Unlock()
+	return e.PeerClosed
+}
+
 // Snapshot returns copies of the written data.
 func (e *Exchange) Snapshot() (head, body []byte, completed bool) {
 	e.mu.Lock()
@@ -105,6 +112,24 @@ type Raw struct {
 	ModelsBody atomic.Value // string
 	// OnExchange, if set, is called when an exchange starts (after the request is read).
 	OnExchange func(*Exchange)
+	// Scripts maps an X-Verif-Script request header value to the Script to run for that request;
+	// ByID records the exchange started for each such id.
+	Scripts sync.Map
+	ByID    sync.Map
+}
+
+// ExchangeFor waits up to d for the exchange started by the request tagged id.
+func (b *Raw) ExchangeFor(id string, d time.Duration) *Exchange {
+	deadline := time.Now().Add(d)
+	for {
+		if v, ok := b.ByID.Load(id); ok {
+			return v.(*Exchange)
+		}
+		if time.Now().After(deadline) {
+			return nil
+		}
+		time.Sleep(time.Millisecond)
+	}
 }
 
 var globalSeq int64
@@ -328,6 +353,13 @@ func (b *Raw) handle(c net.Conn) {
 	}()
 
 	sc := b.script.Load().(Script)
+	// per-request scripts: a request carrying X-Verif-Script: <id> runs the script registered under id
+	if ids := req.Header("X-Verif-Script"); len(ids) > 0 {
+		if v, ok := b.Scripts.Load(ids[0]); ok {
+			sc = v.(Script)
+		}
+		b.ByID.Store(ids[0], ex)
+	}
 	off := 0
 	write := func(p []byte) bool {
 		_ = c.SetWriteDeadline(time.Now().Add(30 * time.Second))
